@@ -470,6 +470,12 @@ func execRawSrv(e *Env, pp any) {
 		switch {
 		case !got():
 			e.Violate("C13", "probe-not-sent", "unary.later-call", "a unary call made after the hostile sequence never put its request on the transport\n%s", e.WaitGraph())
+		case !pr.Returned && abandonedLiveStream(sim):
+			// the harness's own caller cut its receive loop (COverrun) and walked away from a
+			// stream without cancelling it, which no caller may do; what the peer goes on
+			// sending to that stream then backs up into the shared reader (the mechanism of
+			// known finding F48, judged by C11's own family with a caller that cancels late)
+			e.Note("later-call.behind-abandoned-stream")
 		case !pr.Returned:
 			e.Violate("C13", "hang", "unary.later-call", "a unary call made after the hostile sequence and answered properly by the peer has not returned\n%s", e.WaitGraph())
 			e.Violate("C11", "hang", "peer-sends-more-than-expected", "an RPC started after a peer sent more than expected (to finished, abandoned or unknown calls) has not completed\n%s", e.WaitGraph())
@@ -730,4 +736,18 @@ func init() {
 		Faulty: true, FaultKinds: []string{"link.readFail"}})
 	Register(&Family{Name: "raw.hostile-server", ShrinkKeys: []string{"seq"}, Props: []string{"C13", "C11", "C20"}, New: func() any { return &RawSrvParams{} }, Gen: genRawHostile, GenAt: genRawHostileAt, Exec: execRawSrv,
 		Faulty: true, FaultKinds: []string{"peer.malformed", "link.readFail"}})
+}
+
+// abandonedLiveStream: some caller program stopped receiving because the peer sent far more
+// than the scenario's handler could (the harness's cut-off, CallRec.COverrun) and never
+// learnt how the stream ended: it left a live stream behind without cancelling it.
+func abandonedLiveStream(sim *Sim) bool {
+	histMu.Lock()
+	defer histMu.Unlock()
+	for _, id := range sim.Order {
+		if r := sim.Calls[id]; r != nil && r.COverrun && !r.CFinalSet {
+			return true
+		}
+	}
+	return false
 }
